@@ -2,6 +2,7 @@ package vc
 
 import (
 	"fmt"
+	"hash/crc32"
 	"go/constant"
 	"go/types"
 	"math/big"
@@ -342,6 +343,28 @@ func (e *Env) binary0(n *EBinary) (Val, types.Type) {
 	if es, ok := b.(*EStr); ok {
 		if sa, ok := a.(*StructVal); ok && es.V == "" && len(sa.N) == 2 && sa.N[1] == "len" {
 			z := Eq(sa.F[1].(Term), zeroLike(sa.F[1].(Term)))
+			switch n.Op {
+			case "==":
+				return z, nil
+			case "!=":
+				return Not(z), nil
+			}
+		}
+	}
+	// string value against a non-empty literal: same length and same contents, contents through
+	// the uninterpreted rank of the (immutable) bytes, which every literal of the program is
+	// assumed to have as strlit_id(<its checksum>) (exec.go stringLit)
+	if es, ok := b.(*EStr); ok && es.V != "" {
+		if sa, ok := a.(*StructVal); ok && len(sa.N) == 2 && sa.N[1] == "len" && e.st != nil {
+			l := sa.F[1].(Term)
+			lit := Term{fmt.Sprintf("(strlit_id %d)", crc32.ChecksumIEEE([]byte(es.V))), Sort{K: KInt, W: 64, Signed: true}}
+			var ln Term
+			if l.Sort.K == KInt {
+				ln = Term{fmt.Sprint(len(es.V)), l.Sort}
+			} else {
+				ln = BVInt(int64(len(es.V)), l.Sort.W, l.Sort.Signed)
+			}
+			z := And(Eq(l, ln), Ident(strRank(e.st.memArr("M8"), sa), lit))
 			switch n.Op {
 			case "==":
 				return z, nil
